@@ -352,8 +352,12 @@ class AlgTheory(Theory):
                 elif tup != isinstance(v, tuple) or [r.arr.sort().range() for r in R] != [x.sort() for x in comps]:
                     raise Unsupported('tree.map over a symbolic container: results of different kinds on different paths')
                 rng = z3.And(j >= 0, j < n, zbool(c)) if c is not True else z3.And(j >= 0, j < n)
+                # triggers: the defined element, or (alternatively) the source leaf it is computed from, so that a fact
+                # about leaf j of the mapped tree also instantiates the definition
+                src = seq.get(j)
+                pats = [src] if (is_z3(src) and z3.is_select(src)) else []
                 for r, x in zip(R, comps):
-                    interp.run.assume(z3.ForAll([j], z3.Implies(rng, r.arr[j] == x), patterns=[r.arr[j]]))
+                    interp.run.assume(z3.ForAll([j], z3.Implies(rng, r.arr[j] == x), patterns=[r.arr[j]] + pats))
             if R is None:
                 R = [op_seq('mapped', seq.length)]
             if tup:
